@@ -351,6 +351,9 @@ def c05(ctx):
     multi += [{"mode": "multi", "W": 8, "N": 40, "pipes": k, "nested": nested, "seed": 80 + k}
               for (k, nested) in ((3, False), (5, False), (3, True))]
     pipe_judge(ctx, multi, "B-multi", C05_CLAUSES, mech=False)
+    # tens of thousands of items (tickets, turn counter and positions beyond 16 bits), without hooks and event log
+    bulk = [{"mode": "bulk", "W": w, "N": n} for (w, n) in (((0, 66000), (3, 70000)) if q else ((0, 66000), (1, 70000), (3, 70000), (8, 140000)))]
+    pipe_judge(ctx, bulk, "B-bulk", C05_CLAUSES, mech=False)
 
 
 def buffered_cfg(N, cap, drain="FALSE", props="StopsAfterDrop"):
